@@ -245,6 +245,11 @@ class Checker:
             return cache[p]
         return f
 
+    def own_diff(self, commit):
+        """paths the commit itself changes against its first parent"""
+        rc, out, _ = self.sim.realgit("diff-tree", "--root", "--no-commit-id", "--name-only", "-r", "-z", "-m", "--first-parent", commit)
+        return {p for p in out.split("\0") if p}
+
     def step(self):
         """-> list of failures {"commit", "kind", "detail", "paths"}"""
         fails = []
@@ -270,8 +275,11 @@ class Checker:
             rc, typ, _ = self.sim.realgit("cat-file", "-t", k)
             if typ.strip() == "commit" and not any(kd == "parse" for kd, _ in probs):
                 probs += structural_problems(n, k, self.files_lc(k))
+            paths = [p for p, _ in n["files"]]
             for kd, d in probs:
-                fails.append({"commit": k, "kind": kd, "detail": d, "paths": [p for p, _ in n["files"]]})
+                path = next((p for p in paths if d.startswith(repr(p) + ":") or d.startswith(f"note names {p!r},")), None)
+                fails.append({"commit": k, "kind": kd, "detail": d, "paths": paths, "path": path,
+                              "in_own_diff": (path in self.own_diff(k)) if path is not None else None})
         return fails
 
 
@@ -325,6 +333,31 @@ def resolve_prefer_delete(w):
     World._resolve_conflict(w)
 
 
+def resolve_by_hand(w, mode):
+    """a person resolves a stopped rebase / cherry-pick by typing the file: the upstream side's content, then
+    none / some of the lines the commit being applied brought (never all of them: the result is shorter than the
+    original), then possibly a line of their own.  `ours_checkout` = `git checkout --ours` (the commit no longer
+    touches the file)."""
+    rc, out, _ = w.sim.realgit("diff", "--name-only", "--diff-filter=U", "-z")
+    for p in [x for x in out.split("\0") if x]:
+        rc2, ours, _ = w.sim.realgit("show", f":2:{p}")
+        rc3, theirs, _ = w.sim.realgit("show", f":3:{p}")
+        if rc2 != 0 or rc3 != 0:
+            w.realgit("rm", "-q", "-f", "--", p)         # modify/delete: keep the deletion
+            continue
+        if mode == "ours_checkout":
+            w.realgit("checkout", "--ours", "--", p)
+            w.realgit("add", "--", p)
+            continue
+        ol = ours.split("\n")[:-1] if ours.endswith("\n") else ours.split("\n")
+        tl = theirs.split("\n")[:-1] if theirs.endswith("\n") else theirs.split("\n")
+        brought = [l for l in tl if l not in ol]
+        keep = [] if mode == "none" or len(brought) < 2 else brought[:w.r.range(1, max(1, len(brought) // 2))]
+        own = [w.fresh("H")] if mode == "none" or w.r.chance(1, 2) else []
+        w.write(p, "".join(l + "\n" for l in ol + keep + own))
+        w.realgit("add", "--", p)
+
+
 def op_remove_upstream(w, victim, how):
     """the current branch deletes (or renames) a file the other branch's AI commits edit"""
     if how == "mv":
@@ -372,7 +405,10 @@ def classify(f, op, slow, ai_paths):
         c = c17_class(p)
         if c and f["kind"] in ("parse", "hash", "unreadable", "file_absent", "no_prompt", "dup_file", "base"):
             return c
-    if op in REPLAY_OPS and slow and f["kind"] in REPLAY_KINDS:
+    # K2 = the replay carries the state at the original head over for files the rewritten commit does not itself
+    # change; a file in the commit's own diff is recomputed against the commit's content, so a stale entry for such a
+    # file (e.g. the original note copied verbatim) is NOT a replay product and is not excused
+    if op in REPLAY_OPS and slow and f["kind"] in REPLAY_KINDS and f.get("in_own_diff") is False:
         return "C05-K2 note written by the rebase / cherry-pick content replay: " + \
                ("names a file absent from the commit" if f["kind"] == "file_absent" else "lists lines beyond the end of the file")
     return None
@@ -425,7 +461,7 @@ def scenario(args):
         out["names"] = names
         ck = Checker(sim)
         ck.step()
-        shape = r.weighted([(5, "structured"), (3, "random"), (4, "deleted")])
+        shape = r.weighted([(5, "structured"), (3, "random"), (4, "deleted"), (4, "conflict")])
         out["shape"] = shape
         try:
             if shape == "random":
@@ -456,6 +492,34 @@ def scenario(args):
                     do("switch")
                 do(final)
                 for _ in range(r.range(0, 3)):
+                    do(r.weighted(OPS))
+            if shape == "conflict":
+                # both sides append to the same file; the stopped rebase / cherry-pick is resolved BY HAND, keeping none
+                # or some of the agent's lines, so that line numbers of the original note would overflow
+                mode = r.weighted([(5, "none"), (4, "some"), (2, "ours_checkout")])
+                out["resolution"] = mode
+                w._resolve_conflict = lambda: resolve_by_hand(w, mode)
+                victim = r.pick(names)
+                ai = r.pick(SESSIONS)
+                do("branch")
+                for _ in range(r.range(2, 4)):
+                    do("edit", lambda: w.op_edit(actor=ai, path=victim, region="bottom", kinds=["ins"]))
+                if r.chance(1, 2):
+                    others = [n for n in names if n != victim]
+                    if others:
+                        do("edit", lambda: w.op_edit(actor="H", path=r.pick(others), kinds=["ins"]))
+                do("commit")
+                if r.chance(1, 3):
+                    do("edit", lambda: w.op_edit(actor=r.pick(SESSIONS), path=victim, region="bottom", kinds=["ins"]))
+                    do("commit")
+                do("switch")
+                do("edit", lambda: w.op_edit(actor=r.pick(["H", "H", "s2"]), path=victim, region="bottom", kinds=["ins"]))
+                do("commit")
+                final = r.weighted([(6, "rebase"), (4, "cherry_pick")])
+                if final == "rebase":
+                    do("switch")
+                do(final)
+                for _ in range(r.range(0, 2)):
                     do(r.weighted(OPS))
             if shape == "deleted":
                 # a file the feature's AI commits edit is deleted / renamed upstream; conflicts are resolved by deletion
@@ -731,6 +795,44 @@ def replay_witness(base):
         ck = Checker(sim)
         pr = structural_problems(n, first, ck.files_lc(first))
         return sorted({k for k, _ in pr})
+    finally:
+        shutil.rmtree(sim.base, ignore_errors=True)
+
+
+def conflict_by_hand_witness(base, how):
+    """must PASS (how = hand) / is K2 (how = ours): feature: AI appends 8 lines to f.txt and a person edits g.txt; main appends
+    one line to f.txt; git rebase main stops; the conflict is resolved by typing f.txt without any agent line
+    (hand) or by `git checkout --ours f.txt` (ours); git rebase --continue.  -> (problem kinds, f.txt in the commit's own diff)"""
+    sim = Sim5(base, "hand" + how)
+    try:
+        sim.init({"f.txt": "base 1\nbase 2\n", "g.txt": "notes\n"})
+        sim.git("switch", "-c", "feature")
+        sim.checkpoint_human(["f.txt"])
+        sim.write("f.txt", "base 1\nbase 2\n" + "".join(f"ai {i}\n" for i in range(1, 9)))
+        sim.checkpoint_ai("s1", ["f.txt"], tool=TOOL)
+        sim.write("g.txt", "notes\nhuman note\n")
+        sim.realgit("add", "-A")
+        sim.git("commit", "-q", "-m", "feature work")
+        sim.git("switch", "main")
+        sim.write("f.txt", "base 1\nbase 2\nmain tail\n")
+        sim.realgit("add", "-A")
+        sim.git("commit", "-q", "-m", "main work")
+        sim.git("switch", "feature")
+        sim.git("rebase", "main")
+        if how == "hand":
+            sim.write("f.txt", "base 1\nbase 2\nmain tail\nresolved by hand\n")
+        else:
+            sim.realgit("checkout", "--ours", "--", "f.txt")
+        sim.realgit("add", "f.txt")
+        sim.git("rebase", "--continue", env_extra={"GIT_EDITOR": "true"})
+        h = sim.head()
+        raw = sim.note_raw(h)
+        if raw is None:
+            return [], None
+        n = parse_v3(raw)
+        ck = Checker(sim)
+        pr = [k for k, _ in n["problems"]] + [k for k, _ in structural_problems(n, h, ck.files_lc(h))]
+        return sorted(set(pr)), "f.txt" in ck.own_diff(h)
     finally:
         shutil.rmtree(sim.base, ignore_errors=True)
 
@@ -1482,6 +1584,21 @@ def run(ctx):
                            {"kind": "squash-deleted-witness", "problems": pr,
                             "history": "base a.txt,x.txt; feat: AI appends to a.txt and x.txt (F1); main: git rm x.txt (M1); "
                                        "git merge --squash feat, git rm x.txt, git commit (S); git-ai squash-authorship main S F1"}))
+    kh, in_diff = conflict_by_hand_witness(ctx.scratch, "hand")
+    cov["conflict_by_hand_witness"] = kh or "ok"
+    if kh:
+        violations.append((f"rebase with a conflict resolved by hand (no agent line kept): the note of the rebased commit has {kh}",
+                           {"kind": "squash-deleted-witness", "problems": kh,
+                            "history": "base f.txt (2 lines), g.txt; feature: AI appends 8 lines to f.txt, a person edits g.txt; main appends "
+                                       "one line to f.txt; git rebase main; f.txt typed as main's 3 lines + 1 own line; git add; git rebase --continue"}))
+    ko, in_diff_o = conflict_by_hand_witness(ctx.scratch, "ours")
+    cov["conflict_checkout_ours_witness"] = {"problems": ko, "f.txt_in_own_diff": in_diff_o}
+    if ko:
+        if in_diff_o is False and set(ko) <= REPLAY_KINDS:
+            known_seen.add("C05-K2 note written by the rebase / cherry-pick content replay: lists lines beyond the end of the file")
+        else:
+            violations.append((f"rebase with the conflict resolved by checkout --ours: {ko}", {"kind": "history", "problems": ko}))
+    evaluations += 2
     kinds2 = replay_delete_witness(ctx.scratch)
     cov["replay_delete_witness_breaks"] = kinds2
     if "file_absent" in kinds2:
